@@ -21,7 +21,7 @@ CAN = {">f4": ">f4", ">f8": ">f8", ">c8": ">c8", ">c16": ">c16", ">i2": ">i2",
        "complex64": "complex64", "complex128": "complex128", "clongdouble": "complex256"}
 REQ0 = {"Signal": None, "RadioSignal": None, "IntensitySignal": "float64", "FullStokesSignal": "float64",
         "BasebandSignal": "complex128", "DualPolarizationSignal": "complex128"}
-QK = ["pos", "zero", "neg", "nan", "nonScalar", "nonScalar1", "nonScalar11", "wrongUnit", "notQuantity"]
+QK = ["pos", "zero", "neg", "nan", "string", "nonScalar", "nonScalar1", "nonScalar11", "wrongUnit", "notQuantity"]
 OPS = ["slice", "slice2", "fslice", "fast_len", "time_shift", "to_intensity", "to_stokes", "to_circular", "to_linear",
        "stokesI", "concat", "incoh", "coh", "freq_shift", "stft", "ufunc", "snippet", "like", "dask"]
 
@@ -106,6 +106,7 @@ class Prop(PropBase):
         if what in ("rate", "cf", "bw"):
             return {"pos": 2.5 * u.kHz if what != "cf" else 400 * u.MHz, "zero": 0 * u.Hz, "neg": -3 * u.MHz,
                     "nan": float("nan") * u.MHz,      # a scalar frequency, but not a positive one
+                    "string": "400 MHz",              # parseable text is still not a Quantity
                     "nonScalar": np.array([1.0, 2.0]) * u.kHz, "nonScalar1": np.array([4.0]) * u.MHz,
                     "nonScalar11": np.array([[4.0]]) * u.MHz, "wrongUnit": 1 * u.s, "notQuantity": 5.0}[kind]
         if what == "start":
@@ -274,6 +275,8 @@ class Prop(PropBase):
         for k in ("rate", "cf", "bw"):
             if a[k].startswith("nonScalar"):
                 a[k] = "nonScalar"
+            if a[k] == "string":
+                a[k] = "notQuantity"
         sh = ",".join(str(s) for s in shape) if shape else "-"
         return (f"c16 new {cls} {sh} {CAN.get(dtype, dtype)} {int(safe)} {a['rate']} {start} {a['meta']} {a['cf']} {a['bw']} "
                 f"{a['align'] or 'EMPTY'} {a['pol'] or 'EMPTY'}")
